@@ -431,10 +431,141 @@ func generate(thorough bool, sel func(int) bool, count bool) *generator {
 		}
 	}
 
+	// ---------------- L6 ----------------
+	g.compositions()
+
 	// ---------------- L5 ----------------
 	g.special(serFam, timeFam)
 
 	return g
+}
+
+// compositions (L6): the grammar is compositional, so every outer node is put over every class of inner form —
+// comparison ∘ topk, comparison ∘ bottomk, top/bottom-k ∘ (vector aggregation ∘ comparison), top/bottom-k ∘ (vector
+// aggregation of a compared range aggregation), comparison at range level AND at vector level in one query, all three
+// positions at once — on the samples path (5 s, and unwrap at 15 s) and on the metrics_15s shortcut (count_over_time /
+// rate at 15 s).  Databases: every distribution of 0..3 entries per stream over the first bucket (63 databases: up to
+// three series with pairwise distinct counts straddling every threshold), with per-stream unwrapped values 1, 2, 4
+// so that sums are distinct as well.  Same in both tiers (thorough adds step 2*range and range 1 m).
+func (g *generator) compositions() {
+	ranges := []int{5, 15}
+	if g.thorough {
+		ranges = append(ranges, 60)
+	}
+	posNum := []int64{1, 2, 3} // entry positions inside the first bucket, in fifths of the range
+	vOf := []string{"1", "2", "4"}
+	fam := &dbFamily{name: "counts", dbs: map[int][]*Database{}}
+	for _, r := range ranges {
+		for c0 := 0; c0 <= 3; c0++ {
+			for c1 := 0; c1 <= 3; c1++ {
+				for c2 := 0; c2 <= 3; c2++ {
+					if c0+c1+c2 == 0 {
+						continue
+					}
+					d := &Database{Name: fmt.Sprintf("counts-r%d-%d%d%d", r, c0, c1, c2), Streams: streamsCommon}
+					for si, c := range []int{c0, c1, c2} {
+						for k := 0; k < c; k++ {
+							pe := poolEntry{si, posNum[k], 5, int64(si), fmt.Sprintf(`{"v":%s,"m":"k"}`, vOf[si])}
+							d.Entries = append(d.Entries, Entry{Stream: si, TS: pe.at(r), Line: pe.line})
+						}
+					}
+					// one entry of stream 0 in the second bucket, so that two buckets differ
+					d.Entries = append(d.Entries, Entry{Stream: 0, TS: poolEntry{0, 6, 5, 0, ""}.at(r), Line: `{"v":1,"m":"q"}`})
+					for _, n := range noise {
+						d.Entries = append(d.Entries, Entry{Stream: n.stream, TS: n.at(r), Line: n.line})
+					}
+					fam.dbs[r] = append(fam.dbs[r], d)
+					dbIndex[d.Name] = d
+				}
+			}
+		}
+	}
+	ops := []string{">", ">=", "<", "<=", "==", "!="}
+	cnt := func() *Query { return &Query{Matchers: selJ, Fn: "count_over_time"} }
+	rate := func() *Query { return &Query{Matchers: selJ, Fn: "rate"} }
+	sumU := func() *Query {
+		return &Query{Matchers: selJ, Stages: []Stage{jsonV(), unwrapV()}, Fn: "sum_over_time", RGroup: by(true, "a", "b")}
+	}
+	for _, r := range ranges {
+		rateThr := []string{fmt.Sprintf("%g", 2/float64(r))}
+		if r == 15 {
+			rateThr = []string{"0.1"} // between 1/15 and 2/15
+		}
+		if r == 60 {
+			rateThr = []string{"0.02"} // between 1/60 and 2/60
+		}
+		var qs []*Query
+		for _, op := range ops {
+			for _, top := range []string{"topk", "bottomk"} {
+				for _, k := range []int{1, 2} {
+					// comparison ∘ top/bottom-k over a range aggregation (count: samples path / shortcut), an unwrapped sum, a rate
+					for _, thr := range []string{"1", "2", "3"} {
+						q := cnt()
+						q.Top, q.K, q.TCmp = top, k, &Cmp{op, thr}
+						qs = append(qs, q)
+					}
+					for _, thr := range []string{"2", "4", "5"} {
+						q := sumU()
+						q.Top, q.K, q.TCmp = top, k, &Cmp{op, thr}
+						qs = append(qs, q)
+					}
+					for _, thr := range rateThr {
+						q := rate()
+						q.Top, q.K, q.TCmp = top, k, &Cmp{op, thr}
+						qs = append(qs, q)
+					}
+					// comparison ∘ top/bottom-k ∘ vector aggregation (by (b): streams 0 and 2 merge)
+					for _, thr := range []string{"2", "3"} {
+						q := cnt()
+						q.Agg, q.AGroup = "sum", by(false, "b")
+						q.Top, q.K, q.TCmp = top, k, &Cmp{op, thr}
+						qs = append(qs, q)
+					}
+					// top/bottom-k ∘ (vector aggregation ∘ comparison)
+					q := cnt()
+					q.Agg, q.AGroup, q.ACmp = "sum", by(true, "b"), &Cmp{op, "2"}
+					q.Top, q.K = top, k
+					qs = append(qs, q)
+					// top/bottom-k ∘ vector aggregation ∘ (range aggregation ∘ comparison)
+					q = cnt()
+					q.RCmp = &Cmp{op, "2"}
+					q.Agg, q.AGroup = "max", by(false, "a")
+					q.Top, q.K = top, k
+					qs = append(qs, q)
+					// all three positions at once (inner and middle thresholds fixed, outer operator varies)
+					q = cnt()
+					q.RCmp = &Cmp{">=", "1"}
+					q.Agg, q.AGroup, q.ACmp = "sum", by(false, "b"), &Cmp{"<=", "4"}
+					q.Top, q.K, q.TCmp = top, k, &Cmp{op, "2"}
+					qs = append(qs, q)
+				}
+			}
+			// comparison at range level and at vector level in one query (both operators vary against each other)
+			for _, op2 := range ops {
+				q := cnt()
+				q.RCmp = &Cmp{op, "2"}
+				q.Agg, q.AGroup, q.ACmp = "sum", by(false, "a"), &Cmp{op2, "3"}
+				qs = append(qs, q)
+			}
+			q := sumU()
+			q.RCmp = &Cmp{op, "4"}
+			q.Agg, q.AGroup, q.ACmp = "min", without(true, "b"), &Cmp{"<", "4"}
+			qs = append(qs, q)
+		}
+		steps := []int64{int64(r) * 1000, int64(r) * 500}
+		if g.thorough {
+			steps = append(steps, int64(r)*2000)
+		}
+		for _, q := range qs {
+			qq := *q
+			qq.RangeS = r
+			for _, st := range steps {
+				for _, d := range fam.dbs[r] {
+					g.add("L6", &qq, d, window{0, 10}.params(r, st), false)
+				}
+			}
+		}
+	}
 }
 
 // special families
